@@ -495,6 +495,26 @@ fn c13_replay(sub: &str, case: &Value) -> Result<(), CaseFail> {
     C13.replay(&pool, case, &budget_for(Tier::Thorough, 1))
 }
 
+/* ------------------------------- C18 (concurrent part) ------------------------------- */
+
+fn c18_judge(prog: &Prog, out: &ConcOut) -> Result<(bool, Vec<(&'static str, u64)>), JudgeErr> {
+    base_judge("C18", out)?;
+    // the removals a retain decided before its predicate panicked must have been carried out, a
+    // panicking compute must have changed nothing, and every other call must still be explainable
+    let ov = lin_judge(prog, out).map_err(|m| ("C18".to_string(), format!("[C18] after {} propagated callback panic(s): {}", out.recs.panics, m)))?;
+    let mut c = std_classes(out, ov);
+    c.push(("schedules_with_a_propagated_callback_panic", (out.recs.panics > 0) as u64));
+    Ok((out.recs.panics > 0 && ov > 0, c))
+}
+pub const C18P: ConcCheck = ConcCheck { asked: "C18", sub: "panic-conc", mix: Mix::Panics, max_threads: 3, max_ops: 3, opts: ExecOpts { ledger_check: true, ..ExecOpts::DEFAULT }, judge: c18_judge, mk_probe: NO_PROBE };
+pub fn c18_conc_run(ctx: &Ctx, out: &mut ShardOut) {
+    let pool = Pool::new();
+    C18P.run(ctx, &pool, 18, ctx.share(ctx.by_tier(400, 6_000)) as u32, &budget_for(ctx.tier, ctx.shard_seed(88)), out);
+}
+pub fn c18_conc_replay(case: &Value) -> Result<(), CaseFail> {
+    C18P.replay(&Pool::new(), case, &budget_for(Tier::Thorough, 1))
+}
+
 /* ------------------------------- C11 ------------------------------- */
 
 fn c11_judge(_prog: &Prog, out: &ConcOut) -> Result<(bool, Vec<(&'static str, u64)>), JudgeErr> {
